@@ -28,7 +28,10 @@ def tlc_run(tier, res_index):
     mod = c.pop("EmitMod")
     consts = dict(c, EmitCases=True, EmitMod=mod, EmitRes=res_index % mod)
     cfg = tlc.make_cfg(consts, invariants=INVARIANTS)
-    return tlc.run("MC_HFModel", cfg, workers=16, timeout=7200)
+    res = tlc.run("MC_HFModel", cfg, workers=16, timeout=7200, coverage=(tier == "thorough"))
+    if tier == "thorough":
+        tlc.require_actions(res, ["AddMod", "Build", "Eval"], "MC_HFModel")
+    return res
 
 
 SIM = {"quick": dict(num=150, depth=14, MaxPlace=7), "thorough": dict(num=1500, depth=16, MaxPlace=9)}
